@@ -537,6 +537,9 @@ func RunC12(ctx *core.Ctx) *core.Violation {
 			}
 			ctx.L.Ev("Scan", int64(m.pos))
 		}
+		if c := m.z.Peek(N - m.pos); c != 0 {
+			return m.viol("terminator-wrong", "after %s: Peek at the end of the %d input bytes = %#x, want 0", op12Names[op], N, c)
+		}
 		return m.checkMem(op12Names[op], false)
 	}
 
@@ -586,8 +589,14 @@ func RunC12(ctx *core.Ctx) *core.Violation {
 		if m.borrow {
 			ctx.Count("probe_restore_after_borrow")
 		}
-		m.z.Restore() // idempotent
-		if v := m.checkMem("Restore twice", true); v != nil {
+		// after Restore the byte behind the input is the caller's again: the caller writes to it,
+		// and a second Restore must not touch it any more
+		if m.backing != nil && m.n < len(m.backing) {
+			m.backing[m.n] ^= 0xFF
+			m.snap[m.n] = m.backing[m.n]
+		}
+		m.z.Restore()
+		if v := m.checkMem("a second Restore after the caller reused its byte", true); v != nil {
 			return v
 		}
 	}
